@@ -28,6 +28,10 @@ pub struct Case {
     /// state left behind by the first, possibly failed, load must not leak into it
     #[serde(default)]
     pub followup: Option<String>,
+    /// the bytes that survived (whole text, torn prefix up to the cut, nothing) are also put in a real file of the
+    /// scratch directory and loaded through the from_file entry points; the file is then removed and loaded again
+    #[serde(default)]
+    pub on_disk: bool,
 }
 
 fn bytes_of(c: &Case) -> Vec<u8> {
@@ -79,7 +83,7 @@ impl Scenario for C01 {
         }
     }
     fn rule() -> &'static str {
-        "one case = one stored text (well-formed generator | well-formed + 1-3 stored-byte faults | class-composed string) x one seeded delivery plan (chunk sizes, EINTR, early EOF or hard error at a byte offset, optional byte flip to invalid UTF-8), loaded through Deb822::read, read_relaxed, Control::read, read_relaxed, Changes::read, read_relaxed and from_str/from_str_relaxed as fault-free control; non-trivial = the plan contains at least one fault or short read AND the text is non-empty; distinct = FNV hash of (text, flip, plan)"
+        "one case = one stored text (well-formed generator | well-formed + 1-3 stored-byte faults | class-composed string) x one seeded delivery plan (chunk sizes, EINTR, early EOF or hard error at a byte offset, optional byte flip to invalid UTF-8), loaded through Deb822::read, read_relaxed, Control::read, read_relaxed, Changes::read, read_relaxed and from_str/from_str_relaxed as fault-free control; one case in twelve also puts the bytes that survived (whole text or the torn prefix up to the cut) into a real file of the scratch directory, loads it through Deb822::from_file/from_file_relaxed and Control::from_file/from_file_relaxed, removes the file and loads again (must fail); non-trivial = the plan contains at least one fault or short read AND the text is non-empty; distinct = FNV hash of (text, flip, plan)"
     }
     fn state_measure() -> &'static str {
         "distinct (lexer state x character class) pairs met by the delivered text, where lexer state = (start-of-line, colon-seen, indented), plus distinct (outcome class x fault shape) pairs"
@@ -92,7 +96,7 @@ impl Scenario for C01 {
         ]
     }
     fn components() -> Value {
-        json!({"real": ["deb822_lossless::{lex, lossless::parse, Deb822::read, read_relaxed, from_str, from_str_relaxed, Display}", "debian_control::lossless::{Control::read, read_relaxed, Changes::read, read_relaxed}", "std::io::Read::read_to_string", "rowan"],
+        json!({"real": ["deb822_lossless::{lex, lossless::parse, Deb822::read, read_relaxed, from_str, from_str_relaxed, Display}", "debian_control::lossless::{Control::read, read_relaxed, from_file, from_file_relaxed, Changes::read, read_relaxed}", "deb822_lossless::Deb822::{from_file, from_file_relaxed} over real files in the scratch directory (std::fs)", "std::io::Read::read_to_string", "rowan"],
                "stub": ["byte source behind std::io::Read (SimReader: chunking, EINTR, early EOF, hard errors)", "stored bytes (SimDisk image with injected byte faults)", "getrandom (hasher seeds)"]})
     }
 
@@ -133,7 +137,8 @@ impl Scenario for C01 {
         } else {
             None
         };
-        Case { text, source: source.to_string(), faults, flip, plan, followup }
+        let on_disk = rng.chance(1, 12);
+        Case { text, source: source.to_string(), faults, flip, plan, followup, on_disk }
     }
 
     fn execute(c: &Case, obs: &mut Obs) -> Result<(), Violation> {
@@ -334,6 +339,66 @@ impl Scenario for C01 {
             }
             obs.event(&format!("ch:{}", res.is_ok()));
         }
+        // stored file: what is on disk is the delivered prefix (a torn or complete write); then the file is lost
+        if c.on_disk {
+            obs.count("reach.stored_file_loaded");
+            if c.plan.cut.is_some() {
+                obs.count("fault.torn_file");
+            }
+            let path = format!("{}/c01-{}-{:?}.deb822", crate::core::driver::scratch_dir(), std::process::id(), std::thread::current().id()).replace(['(', ')'], "");
+            if std::fs::write(&path, &expected).is_err() {
+                panic!("HARNESS: cannot write {path}");
+            }
+            let pre3 = format!("stored-file+{}", if exp_str.is_some() { "utf8" } else { "invalid-utf8" });
+            probe::at("Deb822::from_file_relaxed");
+            let relaxed = Deb822::from_file_relaxed(&path);
+            obs.step();
+            probe::at("Deb822::from_file");
+            let strict = Deb822::from_file(&path);
+            obs.step();
+            probe::at("Control::from_file_relaxed");
+            let ctl = Control::from_file_relaxed(&path);
+            obs.step();
+            probe::at("Control::from_file");
+            let ctl_strict = Control::from_file(&path);
+            obs.step();
+            match &exp_str {
+                Some(s) => {
+                    match (&relaxed, &ctl) {
+                        (Ok((d, errs)), Ok((cd, cerrs))) => {
+                            if &d.to_string() != s || &cd.to_string() != s {
+                                return Err(v("roundtrip-text", "from_file_relaxed", &pre3, format!("file holds {:?}, trees print {:?} / {:?}", s, d.to_string(), cd.to_string())));
+                            }
+                            if errs != &ref_errs || cerrs != &ref_errs {
+                                return Err(v("strict-vs-relaxed", "from_file_relaxed", &pre3, format!("errors {:?} / {:?} differ from from_str_relaxed {:?}", errs, cerrs, ref_errs)));
+                            }
+                        }
+                        _ => return Err(v("io-error-spurious", "from_file_relaxed", &pre3, format!("a readable UTF-8 file {:?} could not be loaded", s))),
+                    }
+                    for (label, ok, printed) in [("Deb822::from_file", strict.is_ok(), strict.as_ref().ok().map(|d| d.to_string())), ("Control::from_file", ctl_strict.is_ok(), ctl_strict.as_ref().ok().map(|d| d.to_string()))] {
+                        if ok != ref_errs.is_empty() {
+                            return Err(v("strict-vs-relaxed", label, &pre3, format!("strict load of file {:?} is_ok={} but from_str_relaxed reports {:?}", s, ok, ref_errs)));
+                        }
+                        if let Some(p) = printed {
+                            if &p != s {
+                                return Err(v("roundtrip-text", label, &pre3, format!("file holds {:?}, tree prints {:?}", s, p)));
+                            }
+                        }
+                    }
+                }
+                None => {
+                    if relaxed.is_ok() || strict.is_ok() || ctl.is_ok() || ctl_strict.is_ok() {
+                        return Err(v("io-error-masked", "from_file", &pre3, "file bytes are not valid UTF-8 but a from_file entry point returned Ok".to_string()));
+                    }
+                }
+            }
+            let _ = std::fs::remove_file(&path);
+            obs.count("fault.file_lost");
+            if Deb822::from_file_relaxed(&path).is_ok() || Deb822::from_file(&path).is_ok() || Control::from_file(&path).is_ok() || Control::from_file_relaxed(&path).is_ok() {
+                return Err(v("io-error-masked", "from_file", "file-lost", "the file does not exist but a from_file entry point returned Ok".to_string()));
+            }
+            obs.step();
+        }
         // the same consumer loads a second document: nothing of the first load may leak into it
         if let Some(t2) = &c.followup {
             obs.count("reach.followup_load_after_faulty_load");
@@ -397,6 +462,9 @@ impl Scenario for C01 {
         }
         if c.flip.is_some() {
             out.push(Case { flip: None, ..c.clone() });
+        }
+        if c.on_disk {
+            out.push(Case { on_disk: false, ..c.clone() });
         }
         if let Some(f) = &c.followup {
             out.push(Case { followup: None, ..c.clone() });
